@@ -268,6 +268,7 @@ def gv_unit(u, res):
     return res
 
 
+@symnp.outside_session
 def replay_gv(gid, sid, use_sym, mats_c):
     from phonopy.phonon.group_velocity import GroupVelocity
     ph = prepared(gid, sid)
@@ -391,6 +392,7 @@ def gru_unit(u, res):
     return res
 
 
+@symnp.outside_session
 def replay_gru(u, m, syms, plus, minus, qs):
     from phonopy.gruneisen.core import GruneisenBase
     _, gid, sid, variant = u
@@ -529,6 +531,7 @@ def run_unit(u):
     return res
 
 
+@symnp.outside_session
 def replay_fd(case, fc, q, nac):
     from phonopy.harmonic.derivative_dynmat import DerivativeOfDynamicalMatrix
     from phonopy.harmonic.dynamical_matrix import get_dynamical_matrix
@@ -547,6 +550,7 @@ def replay_fd(case, fc, q, nac):
     return worst > 1e-5, "analytic dD/dq differs from the finite-difference derivative of D by %.3g at q=%s" % (worst, q)
 
 
+@symnp.outside_session
 def replay_c_py(case, fc, q, Z):
     from phonopy.harmonic.derivative_dynmat import DerivativeOfDynamicalMatrix
     from phonopy.harmonic.dynamical_matrix import get_dynamical_matrix
